@@ -53,10 +53,11 @@ pub fn issuers(rng: &mut Rng, n: usize) -> Vec<IssuerSpec> {
 }
 
 pub fn holder_key(rng: &mut Rng) -> String {
-    if rng.bool() {
-        "ecC".into()
-    } else {
-        "edB".into()
+    let k = if rng.bool() { "ecC" } else { "edB" };
+    // the same key material under different JWK metadata (a `kid` label): wallets rotate labels
+    match rng.usize(4) {
+        0 => format!("{}#k{}", k, rng.below(3)),
+        _ => k.into(),
     }
 }
 
@@ -438,6 +439,15 @@ pub fn gen_c02(rng: &mut Rng, tier: Tier) -> MsgScn {
         if rng.chance(1, 3) {
             c.mirror = Some(rng.pick(&["header", "unprotected"]).to_string());
         }
+        cases.push(c);
+    }
+    // the message as a transport or wrapper would carry it (percent-encoding, JSON string
+    // literal, line folding, surrounding blanks, other base64 alphabet …): whatever the verifier
+    // un-wraps, what it accepts must be a JWT text the issuer signed
+    for _ in 0..8 {
+        let mut c = plain(main.clone(), rand_fmt(rng));
+        c.session = session_for(rng, &main);
+        c.wire.push(crate::faults::WireFault::Transport { kind: rng.usize(10) as u8, pos: rng.usize(4000) });
         cases.push(c);
     }
     // enumerated single-character faults
